@@ -112,6 +112,7 @@ type Stack struct {
 	ReadOps  *operations.Operations
 	WriteOps *operations.Operations
 	FS       *fs.STFS
+	AFS      afero.Fs // what callers use: FS itself, or the documented composition over a named root
 	Root     string
 
 	// seam accounting
@@ -457,6 +458,7 @@ func NewStack(dir string, cfg Config, keys *Keys) (*Stack, error) {
 		getBuf = nil
 	}
 	s.FS = fs.NewSTFS(s.ReadOps, writeOps, metadataConfig, cfg.Level, getBuf, cfg.ReadOnly, false, func(hdr *config.Header) {}, nopLogger{})
+	s.AFS = s.FS
 	return s, nil
 }
 
@@ -464,7 +466,25 @@ func NewStack(dir string, cfg Config, keys *Keys) (*Stack, error) {
 func (s *Stack) Init() error {
 	root, err := s.FS.Initialize("/", os.ModePerm)
 	s.Root = root
+	if err == nil {
+		s.compose(root)
+	}
 	return err
+}
+
+// compose applies the documented composition: cache.NewCacheFilesystem(stfs, root, none).
+func (s *Stack) compose(root string) {
+	if a, err := cache.NewCacheFilesystem(s.FS, root, config.NoneKey, 0, ""); err == nil {
+		s.AFS = a
+	}
+}
+
+// ComposeFromIndex composes over the root the index reports (used after a rebuild that bypassed Initialize).
+func (s *Stack) ComposeFromIndex() {
+	if root, err := s.MP.GetRootPath(context.Background()); err == nil {
+		s.Root = root
+		s.compose(root)
+	}
 }
 
 // Close releases the SQLite handle. (The TapeManager has no destructor; its reader file is left to the GC/finalizer.)
